@@ -697,7 +697,7 @@ pub fn c03_distances_wrapper_n2() {
     distances_wrapper_n2();
 }
 
-// @verif prop=C03 tier=thorough fl=f2 role=inductive/dist-step t=3600 mem=30
+// @verif prop=C03 tier=exp fl=f2 role=inductive/dist-step t=3600 mem=30
 #[cfg_attr(kani, kani::proof)]
 #[cfg_attr(kani, kani::unwind(8))]
 pub fn c03_dist_step_n3_h5() {
